@@ -58,6 +58,7 @@ type Contract struct {
 	Requires []*Clause
 	Ensures  []*Clause
 	FrameTags []string // extra property tags of the frame obligations (assigns[Cnn] ...)
+	Refines  string    // interface method whose (ghost-free) postconditions this function also proves
 	ImplConv []string  // lines whose float->int conversion may be implementation-defined
 	OnPanic  []*Clause // exceptional postconditions (checked where a panic escapes the function)
 	Invs     []*Clause
@@ -128,7 +129,7 @@ func newContractSet() *ContractSet {
 	return &ContractSet{Aliases: map[string]string{}, Funcs: map[string]*Contract{}, Ghosts: map[string]*GhostField{}, TypeInvs: map[string][]*TypeInv{}, Consts: map[string]ast.Expr{}, Defines: map[string]*Define{}, Preds: map[string]*Pred{}}
 }
 
-var keywordRe = regexp.MustCompile(`^(alias|assume|boxednonnil|pred|func|extern|interface|ghost|smt|typeinv|const|define|requires|ensures|onpanic|returns|recovers|mayfail|implconv|ghostvar|after|loop|assigns|panics|pure|trusted|at|inline)\b`)
+var keywordRe = regexp.MustCompile(`^(alias|assume|boxednonnil|pred|func|extern|interface|ghost|smt|typeinv|const|define|requires|ensures|onpanic|returns|recovers|mayfail|implconv|ghostvar|after|loop|assigns|panics|pure|trusted|refines|at|inline)\b`)
 
 type rawLine struct {
 	indent int
@@ -464,6 +465,10 @@ func (cs *ContractSet) loadFile(file string, pkgPrefix string) error {
 				}
 				cur.Pure = true
 				cur.Returns = e
+			case "refines":
+				// refines <interface method key>: the implementation also proves the postconditions of
+				// the interface contract that do not mention ghost model fields of the operator
+				cur.Refines = cs.expand(strings.TrimSpace(rest))
 			case "trusted":
 				cur.Trusted = rest
 				if rest == "" {
